@@ -4,6 +4,12 @@
 # property recorded in meta.json), prints their verdict lines, and ALWAYS reverts /repo afterwards.
 set -u
 cd "$(dirname "$0")/.."
+# /repo's working tree is shared with any other check run (e.g. a thorough sweep started with
+# tools/sweep.sh): hold the repo lock while the patch is applied
+if [ -z "${VERIF_REPO_LOCKED:-}" ]; then
+  export VERIF_REPO_LOCKED=1
+  exec flock "$PWD/.repo.lock" "$0" "$@"
+fi
 id="$1"; shift
 dir="seeded/$id"
 [ -f "$dir/patch.diff" ] || { echo "no $dir/patch.diff"; exit 2; }
